@@ -572,7 +572,7 @@ pub fn worker_main(args: &[String]) -> i32 {
     let out_path = &args[3];
     let stride: usize = args.get(4).and_then(|s| s.parse().ok()).unwrap_or(1).max(1);
     unsafe {
-        let lim = libc::rlimit { rlim_cur: 6 << 30, rlim_max: 6 << 30 };
+        let lim = libc::rlimit { rlim_cur: 3 << 30, rlim_max: 3 << 30 };
         libc::setrlimit(libc::RLIMIT_AS, &lim);
     }
     let file = std::fs::File::open(cases_path).expect("cases file");
@@ -873,7 +873,7 @@ pub fn run_for(property: &'static str, tier: Tier) -> Report {
         }
         for (i, why) in &sw.result.crashes {
             if *i != usize::MAX && sw.cases[*i]["mode"] != "program" {
-                rep.violation(Violation::new("C05.worker-died-resource-exhaustion", witness(&sw.cases[*i]), "bounded memory / orderly return for a few bytes of input", format!("worker process died: {why} (address space capped at 6 GiB)")));
+                rep.violation(Violation::new("C05.worker-died-resource-exhaustion", witness(&sw.cases[*i]), "bounded memory / orderly return for a few bytes of input", format!("worker process died: {why} (address space capped at 3 GiB)")));
             }
         }
     }
@@ -901,7 +901,7 @@ pub fn run_for(property: &'static str, tier: Tier) -> Report {
         "rule",
         "for every stdlib function (nondeterministic/IO ones excluded): full cross product of the required parameters' alphabets (declared enum variants + literals harvested from the function's own examples + per-kind edge values; shrunk longest-first to the per-function cap), each optional parameter added one value at a time (thorough: also pairs), every closure body of the alphabet; each tuple as all-literal arguments and as runtime-typed arguments (`.a0`, … read from the event) plus non-UTF-8 bytes / ±inf in every required position; a case is non-trivial when the compiler accepted the call (plain or with `!`) and it was executed; distinct by construction (the cross product has no repeats)",
     );
-    rep.assume("every call runs in a sacrificial worker process (RLIMIT_AS 6 GiB; watchdog: 4 s of CPU time per call, re-confirmed with 60 s of CPU time in a fresh worker unless the exact witness is a listed known finding; wall-clock only as a 15x backstop)");
+    rep.assume("every call runs in a sacrificial worker process (RLIMIT_AS 3 GiB; watchdog: 4 s of CPU time per call, re-confirmed with 60 s of CPU time in a fresh worker unless the exact witness is a listed known finding; wall-clock only as a 15x backstop)");
     rep.assume("excluded: dns_lookup, reverse_dns, http_request (network) and log (writes to the process output); random/environment functions are swept (type, panics, termination) but their values are never compared");
     for c in sw.cases.iter().step_by((sw.cases.len() / 6).max(1)).take(6) {
         rep.sample(witness(c));
@@ -949,7 +949,7 @@ pub fn replay(property: &str, w: &J) -> Vec<Violation> {
             out.push(Violation::new("C05.call-does-not-return", w.clone(), "the call returns within 4 s of CPU time (confirmed with a 60 s CPU budget in a fresh worker); inputs are a few bytes", "no result: worker killed by the watchdog"));
         }
         for (_, why) in &r.crashes {
-            out.push(Violation::new("C05.worker-died-resource-exhaustion", w.clone(), "bounded memory / orderly return for a few bytes of input", format!("worker process died: {why} (address space capped at 6 GiB)")));
+            out.push(Violation::new("C05.worker-died-resource-exhaustion", w.clone(), "bounded memory / orderly return for a few bytes of input", format!("worker process died: {why} (address space capped at 3 GiB)")));
         }
     }
     if let Some(j) = r.results.get(&0) {
